@@ -11,7 +11,7 @@ rundemo() {
   # the agent's run.sh is the authoritative command (it may build a binary first); a bare
   # scratch crate is run with cargo test
   # ... unless that script applies / reverts the patch itself (then it cannot show one state)
-  if [ -f $out/demo/run.sh ] && ! grep -qE "git .*(apply|checkout|stash)" $out/demo/run.sh; then (cd $out/demo && bash ./run.sh 2>&1 | grep -E "^test result|Summary|PASS|FAIL|error(\[|:)|could not compile" | grep -v "ok. 0 passed" | head -6)
+  if [ -f $out/demo/run.sh ] && { [ ! -f $out/demo/Cargo.toml ] || ! grep -vE "^\s*#" $out/demo/run.sh | grep -qE "git .*(apply|checkout|stash)"; }; then (cd $out/demo && bash ./run.sh 2>&1 | grep -E "^test result|Summary|PASS|FAIL|error(\[|:)|could not compile" | grep -v "ok. 0 passed" | head -6)
   else (cd $out/demo && { [ -f Cargo.lock ] || cp $wt/Cargo.lock . 2>/dev/null; } ; CARGO_TARGET_DIR=$wt/target/demo cargo test --offline 2>&1 | grep -E "^test result|error(\[|:)|could not compile" | grep -v "ok. 0 passed" | head -5); fi
 }
 demo_with=$(rundemo)
